@@ -203,6 +203,112 @@ def rule_filter(ctx, rep, rid):
                           "search stops at an equal reverse hash (`>=`): nodes with the searched hash are never examined", [t.where()])
 
 
+def rule_iter(ctx, rep, rid):
+    """Iterator continuation discipline.  A traversal continues from the successor *snapshot* stored in the iterator
+    (iter->next = the very word whose flag bits decided that iter->node is live), never from a fresh load of
+    iter->node->next: after a concurrent replace that word is new_node|REMOVED|OWNER, and re-reading it makes one traversal
+    return both the old and the new node of a key (C06) or follow a removed node (C05)."""
+    for name in ("cds_lfht_lookup", "cds_lfht_next_duplicate", "cds_lfht_next"):
+        f = fn(ctx, name)
+        rep.touch(f)
+        comps = f.sccs()
+        pat.require(len(comps) == 1, "%s: expected exactly one traversal loop, found %d" % (name, len(comps)))
+        comp = comps[0]
+        inloop = [l for l in pat.loads(f, NEXT) if l.blk.id in comp]
+        rep.check(len(inloop) == 1, rid, name + ".one-snapshot-per-node", "each visited node's next word is loaded exactly once per iteration",
+                  "%d loads of ->next per iteration: flag tests and continuation may use different snapshots" % len(inloop), [l.where() for l in inloop[:3]])
+        if len(inloop) != 1:
+            continue
+        snap = inloop[0]
+        # continuation stored in the iterator is that snapshot (or NULL at the end)
+        sts = pat.stores(f, "cds_lfht_iter.next")
+        pat.require(len(sts) == 1, "%s: expected one store to iter->next" % name)
+        v = ir.strip_casts(f, sts[0].args[0])
+        srcs = set()
+        if v[0] == "i" and f.insts[v[1]].op == "phi":
+            for val, blk in f.insts[v[1]].d["inc"]:
+                val = ir.strip_casts(f, val)
+                srcs.add(("null",) if ir.const_of(f, val) == 0 else tuple(val))
+        else:
+            srcs.add(tuple(v))
+        ok = srcs <= {("null",), ("i", snap.id)} and ("i", snap.id) in srcs
+        rep.check(ok, rid, name + ".iter-next=snapshot", "iter->next receives the snapshot that was flag-tested (or NULL)",
+                  "iter->next is set from %s, not from the flag-tested snapshot of node->next" % sorted(srcs), [sts[0].where()])
+        if name == "cds_lfht_lookup":
+            continue
+        # where the walk starts: clear_flag(iter->next), and nothing re-reads iter->node->next before the loop
+        hdrs = [b for b in comp if any(p not in comp for p in f.blocks[b].pred)]
+        pat.require(len(hdrs) == 1, "%s: loop header" % name)
+        h = hdrs[0]
+        starts = []
+        for ph in f.blocks[h].insts:
+            if ph.op != "phi":
+                continue
+            for val, blk in ph.d["inc"]:
+                if blk not in comp:
+                    starts.append((ph, ir.expr(f, val, 6)))
+        itarg = 3 if name == "cds_lfht_next_duplicate" else 1
+
+        def from_iter_next(e):
+            return e[0] == "bin" and e[1] == "and" and e[3] == ("c", -8) and e[2][0] == "load" and e[2][1] == "arg%d.cds_lfht_iter.next" % itarg
+        cur = [(ph, e) for ph, e in starts if from_iter_next(e)]
+        rep.check(bool(cur), rid, name + ".starts-at-iter-next", "the walk resumes at clear_flag(iter->next), the successor snapshot saved by the previous call",
+                  "the walk does not resume from the saved snapshot iter->next: cursor starts at %s" % [ir.expr_str(e) for ph, e in starts], [f.blocks[h].insts[0].where()])
+        pre = [l for l in pat.loads(f, NEXT) if l.blk.id not in comp and f.bdom(l.blk.id, h)]
+        rep.check(not pre, rid, name + ".no-reload-of-current", "iter->node->next is not re-read when resuming", "iter->node->next is re-read before the walk resumes (sees a replacing node as successor)",
+                  [l.where() for l in pre[:2]])
+    f = fn(ctx, "cds_lfht_first")
+    rep.touch(f)
+    sts = pat.stores(f, "cds_lfht_iter.next")
+    nx = pat.calls(f, "cds_lfht_next")
+    pat.require(nx, "cds_lfht_first: call of cds_lfht_next")
+    ok = False
+    for s_ in sts:
+        e = ir.expr(f, s_.args[0], 6)
+        if e[0] == "load" and e[1].endswith(NEXT) and e[2] in ("acquire", "seq_cst") and f.dominates(s_, nx[0]):
+            ld = f.insts[e[3]]
+            b = ir.expr(f, ld.d["ap"]["base"], 4)
+            if (b[0] == "call" and b[1] == "bucket_at") or b[0] == "icall":
+                ok = True
+    rep.check(ok, rid, "cds_lfht_first.seeds-iter-next", "first seeds iter->next with a consume load of bucket 0's next word, then delegates to cds_lfht_next",
+              "cds_lfht_first does not seed iter->next from bucket_at(ht, 0)->next", [nx[0].where()])
+
+
+def rule_chain(ctx, rep, rid):
+    """bucket node is linked before any node of identical reverse hash: the early exit of the
+    insertion scan for bucket_flag compares reverse hashes of iter and node (not the raw hash)"""
+    a = fn(ctx, "_cds_lfht_add")
+    rep.touch(a)
+    found = 0
+    for b in a.blocks:
+        t = b.insts[-1]
+        if t.op != "br" or len(b.succ) != 2:
+            continue
+        e = ir.expr(a, t.args[0], 8)
+        lv = []
+        pat.leaf_atoms(e if e[0] in ("icmp", "bin", "select") else ("icmp", "ne", e, ("c", 0)), True, lv)
+        isflag = lambda x: x[0] == "ne" and x[1] == ("arg", 7) and x[2] == ("c", 0)
+        cmpv = [x for x in lv if x[0] == "eq" and x[1][0] == "load" and x[1][1].endswith(RH)]
+        # `bucket_flag && a == b` may be one merged condition or two nested branches
+        if (any(isflag(x) for x in lv) and len(lv) >= 2) or (cmpv and any(isflag(x) for x in pat.dom_leaf_atoms(a, t))):
+            found += 1
+            ok = bool(cmpv) and all(x[2][0] == "load" and x[2][1].endswith(RH) and x[2][1].startswith("arg5") for x in cmpv)
+            # ... and the node compared is the cursor itself (the one the order-stop test `iter->reverse_hash > node->reverse_hash` examines),
+            # not the predecessor
+            stops = pat.branch_edges_on(a, lambda z: z[0] in ("ugt", "ule") and z[1][0] == "load" and z[1][1].endswith(RH) and z[2][0] == "load" and z[2][1].startswith("arg5"))
+            cursors = set(z[1][1] for _t, _s, z in stops)
+            pat.require(cursors, "_cds_lfht_add: order-stop test not found")
+            okc = bool(cmpv) and all(x[1][1] in cursors for x in cmpv)
+            rep.check(okc, rid, "add.bucket-compares-cursor", "the identical-hash test for bucket nodes examines the cursor node (the one the order-stop test examines)",
+                      "the identical-hash test for bucket nodes examines %s, not the cursor %s: a bucket created by a grow is linked after a resident node whose hash equals the bucket index, "
+                      "which then is unreachable from its bucket" % ([x[1][1] for x in cmpv], sorted(cursors)), [t.where()])
+            rep.check(ok, rid, "add.bucket-first-in-chain", "a bucket node is inserted before nodes whose reverse hash equals its own reverse hash",
+                      "bucket placement compares iter->reverse_hash with %s instead of node->reverse_hash: after a grow, nodes whose hash equals the new bucket index are linked before their bucket and become invisible to lookups"
+                      % (ir.expr_str(cmpv[0][2]) if cmpv else "nothing"), [t.where()])
+    pat.require(found >= 1, "_cds_lfht_add: bucket_flag early-exit test not found")
+
+
+
 def rule_bucket(ctx, rep, rid):
     f = fn(ctx, "lookup_bucket")
     rep.touch(f)
@@ -543,6 +649,51 @@ def rule_destroy(ctx, rep, rid):
     w = fn(ctx, "cds_lfht_destroy")
     rep.touch(w)
     m = M(ctx)
+    AUTO = m.enum(None, "CDS_LFHT_AUTO_RESIZE") if False else 1
+    # (1) synchronous teardown only for tables that never had a resize worker: every direct teardown step in
+    #     cds_lfht_destroy is dominated by `(flags & AUTO_RESIZE) == 0`, with no further condition that could let an
+    #     auto-resize table through (its worker may still be inside do_resize_cb using ht after resize_initiated was cleared)
+    def table_free(f):
+        return [i for i in f.all_insts() if i.op == "icall" and (lambda e: e[0] == "load" and e[1].endswith("cds_lfht_alloc.free"))(ir.expr(f, i.d["fp"]))]
+    tear = [c for c in w.calls() if c.callee in ("cds_lfht_delete_bucket", "free_split_items_count", "pthread_mutex_destroy")] + table_free(w)
+    pat.require(len(tear) >= 3, "cds_lfht_destroy: synchronous teardown calls")
+
+    def not_auto(a):
+        return a[0] == "eq" and a[2] == ("c", 0) and a[1][0] == "bin" and a[1][1] == "and" and a[1][3] == ("c", AUTO) and a[1][2][0] == "load" and a[1][2][1].endswith("cds_lfht.flags")
+
+    def is_auto(a):
+        return a[0] == "ne" and a[2] == ("c", 0) and a[1][0] == "bin" and a[1][1] == "and" and a[1][3] == ("c", AUTO) and a[1][2][0] == "load" and a[1][2][1].endswith("cds_lfht.flags")
+    for c in tear:
+        lv = pat.dom_leaf_atoms(w, c)
+        rep.check(any(not_auto(a) for a in lv), rid, "destroy.sync-only-without-worker.%s@%d" % (c.callee or "free(ht)", c.line),
+                  "synchronous %s only when the table has no AUTO_RESIZE worker" % (c.callee or "free(ht)"),
+                  "%s can run synchronously in cds_lfht_destroy on an AUTO_RESIZE table: the resize worker may still be using the table (it clears resize_initiated "
+                  "before its last accesses to ht)" % (c.callee or "free(ht)"), [c.where()])
+    q = pat.calls(w, "urcu_workqueue_queue_work")
+    pat.require(len(q) == 1, "cds_lfht_destroy: queue_work")
+    lv = pat.dom_leaf_atoms(w, q[0])
+    rep.check(any(is_auto(a) for a in lv), rid, "destroy.deferred-iff-auto", "teardown is queued behind pending resize work exactly for AUTO_RESIZE tables",
+              "deferred teardown is not guarded by the AUTO_RESIZE flag", [q[0].where()])
+    extra = [a for a in lv if not is_auto(a) and not (a[1][0] == "call" and a[1][1] == "cds_lfht_is_empty")]
+    rep.check(not extra, rid, "destroy.deferred-unconditionally", "an AUTO_RESIZE table that is empty is always torn down through the work queue",
+              "deferred teardown additionally depends on %s: when it does not hold, the table is freed under a worker that may still use it" % [ir.atom_str(a) for a in extra][:3], [q[0].where()])
+    emp = pat.calls(w, "cds_lfht_is_empty")
+    pat.require(emp, "cds_lfht_destroy: emptiness check on the deferred path")
+    rep.check(any(a[0] == "ne" and a[2] == ("c", 0) and a[1][0] == "call" and a[1][1] == "cds_lfht_is_empty" for a in lv), rid, "destroy.deferred-only-if-empty",
+              "destroy work is queued only for an empty table (-EPERM otherwise)", "destroy work queued without the emptiness check", [q[0].where()])
+    cb = ir.expr(w, q[0].args[2]) if len(q[0].args) > 2 else None
+    rep.check(cb == ("fn", "do_auto_resize_destroy_cb"), rid, "destroy.queues-destroy-cb", "the queued work is do_auto_resize_destroy_cb", "queued work is %s" % ir.expr_str(cb), [q[0].where()])
+    # (2) the deferred callback: empty check / bucket free, then counters, mutex, then the table itself last; nothing touches ht afterwards
+    cbf = fn(ctx, "do_auto_resize_destroy_cb")
+    rep.touch(cbf)
+    pf = table_free(cbf)
+    db = pat.calls(cbf, "cds_lfht_delete_bucket")
+    pat.require(pf and db, "do_auto_resize_destroy_cb anatomy")
+    rep.must_pass(rid, "destroy_cb.buckets≺table", cbf, [cbf.entry()], pf, lambda i: i in db, include_start=True, what="bucket tables are released before the table structure")
+    after = cbf.reachable_set(pf)
+    late = [i for i in cbf.all_insts() if i.id in after and (i.op in ("load", "store", "icall") or (i.op == "call" and i.callee not in ("llvm.dbg.value",)))
+            and i.op != "ret" and not (i.op == "call" and i.callee.startswith("llvm."))]
+    rep.check(not late, rid, "destroy_cb.free-last", "nothing is accessed after the table structure is freed", "access after the table was freed", [i.where() for i in late[:2]])
 
 
 # ---------------------------------------------------------------------------
